@@ -82,13 +82,20 @@ func (g *schemaGen) constOfType(ty *ref.Type, depth int) *ref.Value {
 	return ConstOfType(g.t, func(n string) *ref.TypeDef { return g.defs[n] }, ty, depth, false)
 }
 
+// a custom scalar accepts list literals too, so a list literal at a list-of-custom-scalar
+// position would be ambiguous: never coerce there
+func isCustomScalar(lookup func(string) *ref.TypeDef, name string) bool {
+	d := lookup(name)
+	return d != nil && d.Kind == "SCALAR" && !isBuiltinScalar(name)
+}
+
 // ConstOfType draws a literal of type ty. allowNull permits null at nullable positions.
 func ConstOfType(t *rapid.T, lookup func(string) *ref.TypeDef, ty *ref.Type, depth int, allowNull bool) *ref.Value {
 	if !ty.NonNull && allowNull && rapid.IntRange(0, 5).Draw(t, "null") == 0 {
 		return &ref.Value{Kind: "Null", Raw: "null"}
 	}
 	if ty.Elem != nil {
-		if rapid.IntRange(0, 4).Draw(t, "coerce") == 0 && ty.Elem.Elem == nil {
+		if rapid.IntRange(0, 4).Draw(t, "coerce") == 0 && ty.Elem.Elem == nil && !isCustomScalar(lookup, ty.Elem.Name) {
 			// a single value is coerced to a list of one
 			inner := *ty.Elem
 			inner.NonNull = true
@@ -126,7 +133,7 @@ func ConstOfType(t *rapid.T, lookup func(string) *ref.TypeDef, ty *ref.Type, dep
 	switch def.Kind {
 	case "SCALAR":
 		// custom scalars accept any literal
-		return Value(1, true).Filter(func(v *ref.Value) bool { return v.Kind != "Null" || !ty.NonNull }).Draw(t, "custom")
+		return Value(1, true).Filter(func(v *ref.Value) bool { return (v.Kind != "Null" || !ty.NonNull) && uniqueKeys(v) }).Draw(t, "custom")
 	case "ENUM":
 		return &ref.Value{Kind: "Enum", Raw: rapid.SampledFrom(def.EnumValues).Draw(t, "enumv").Name}
 	case "INPUT_OBJECT":
@@ -768,4 +775,21 @@ func (g *schemaGen) allTypeNames() []string {
 	out = append(out, g.unions...)
 	sort.Strings(out)
 	return out
+}
+
+// uniqueKeys: no object literal inside v names a field twice.
+func uniqueKeys(v *ref.Value) bool {
+	seen := map[string]bool{}
+	for _, f := range v.Fields {
+		if seen[f.Name] || !uniqueKeys(f.Value) {
+			return false
+		}
+		seen[f.Name] = true
+	}
+	for _, i := range v.Items {
+		if !uniqueKeys(i) {
+			return false
+		}
+	}
+	return true
 }
